@@ -27,10 +27,14 @@ Mem(seg, base, index, disp) == [k |-> "mem", seg |-> seg, base |-> base, index |
 Lbl == [k |-> "label", name |-> "vdat", off |-> 4]
 Off == [k |-> "offset", name |-> "vdat", v |-> 4]
 
+\* a register form written without its displacement (`[bx]`, `[bp,si]`): a different alternative of the grammar
+\* with the same meaning as displacement 0 (nd: "no displacement written")
+MemNd(seg, base, index) == [k |-> "mem", seg |-> seg, base |-> base, index |-> index, disp |-> 0, nd |-> TRUE]
 \* every alternative of memory_addr, with and without a segment override
 MemForms ==
   UNION {{ Mem(sg, "", "", 4660), Mem(sg, "bx", "", 0), Mem(sg, "", "si", 0), Mem(sg, "bp", "", -2),
-           Mem(sg, "", "di", 7), Mem(sg, "bx", "si", 0), Mem(sg, "bp", "di", -300) } : sg \in {"", "es", "cs"}}
+           Mem(sg, "", "di", 7), Mem(sg, "bx", "si", 0), Mem(sg, "bp", "di", -300),
+           MemNd(sg, "bx", ""), MemNd(sg, "", "di"), MemNd(sg, "bp", "si") } : sg \in {"", "es", "cs"}}
 Regs(w) == IF w = 8 THEN {R8("al"), R8("bh")} ELSE {R16("ax"), R16("bp"), R16("di")}
 MemLike == MemForms \cup {Lbl}
 ImmsS(w) == IF w = 8 THEN {Imm(5), Imm(-3), Imm(255), Imm(-128), Imm(200), Off} ELSE {Imm(5), Imm(-3), Imm(65535), Imm(-32768), Imm(43981), Off}
@@ -138,7 +142,8 @@ BadVariants(s) ==
     [] s.cls = "int" -> {[s EXCEPT !.n = 256], [s EXCEPT !.n = 5]}
     [] OTHER -> {}
 \* displacement / direct address out of range in any memory operand
-BadMem(o) == IF o.k # "mem" THEN {} ELSE IF o.base = "" /\ o.index = "" THEN {[o EXCEPT !.disp = 65536], [o EXCEPT !.disp = -1]}
+\* (a form written without displacement has none to be out of range)
+BadMem(o) == IF o.k # "mem" \/ "nd" \in DOMAIN o THEN {} ELSE IF o.base = "" /\ o.index = "" THEN {[o EXCEPT !.disp = 65536], [o EXCEPT !.disp = -1]}
                                         ELSE {[o EXCEPT !.disp = 65536], [o EXCEPT !.disp = -32769]}
 BadMemVariants(s) ==
   (IF "dst" \in DOMAIN s THEN {[s EXCEPT !.dst = x] : x \in BadMem(s.dst)} ELSE {})
